@@ -20,22 +20,23 @@ Definition smsgs_of (ms : list tmsg) : list smsg :=
 Definition charge (c : acase) : option (bytes * Z) :=
   pick_fee (fp_prices (ac_fp c)) (ac_offered c) (gas_cost (smsgs_of (ac_msgs c))).
 
-(* UseGrantedFees is asked for the fee that is charged: the fixed fee of a settlement transaction, nothing for an oracle
-   transaction (generated cases name a granter on the settlus route only) *)
+(* UseGrantedFees is asked for the fee that is charged: the fixed fee of a settlement transaction (generated cases name
+   a granter on the settlus route only) *)
 Definition grant_ok (c : acase) : bool :=
   match ac_granter c with
   | None => true
   | Some g =>
+      (* an oracle transaction pays nothing and skips the fee decorator altogether: a granter it names is never asked *)
+      if is_oracle_tx (ac_msgs c) then true else
       if g =? ac_fee_payer c then true
       else match ac_allowance c with
            | None => false
            | Some None => true
            | Some (Some lim) =>
-               if is_oracle_tx (ac_msgs c) then true
-               else match charge c with
-                    | Some (d, fee) => fee <=? coin_get lim d
-                    | None => true        (* refused by the fee rule before the allowance is looked at *)
-                    end
+               match charge c with
+               | Some (d, fee) => fee <=? coin_get lim d
+               | None => true        (* refused by the fee rule before the allowance is looked at *)
+               end
            end
   end.
 
@@ -100,7 +101,13 @@ Definition ante_prop (c : acase) : list Z :=
       if is_settlement_tx (ac_msgs c) then
         match charge c with
         | None => (match ac_coll_delta c, ac_pool_delta c with [], [] => [] | _, _ => [7] end)
-        | Some _ => if ac_expect_fail c then fee_charged_ok c else []   (* charged although the messages failed *)
+        | Some _ =>
+            (* charged although the messages failed - unless the ante handler itself refused the transaction because
+               the fee granter it names has given no sufficient allowance: then nothing may have been taken *)
+            if ac_expect_fail c then
+              if grant_ok c then fee_charged_ok c
+              else (match ac_coll_delta c, ac_pool_delta c with [], [] => [] | _, _ => [7] end)
+            else []
         end
       else []
   end.
